@@ -161,7 +161,7 @@ theorem timed_tests_ok : recv_timeout_precheck = .gt ∧ wait_timeout_loop_test 
 /-- `drain_into`: count = `queue.len() + (recv_blocking ? 0 : wait_list.len())`, buffer before senders,
     returns that count. -/
 theorem drain_ok : drain_count_guarded_by_flag = true ∧ drain_buffer_before_senders = true ∧
-    drain_returns_required_cap = true := by decide
+    drain_returns_required_cap = true ∧ drain_lock_acquisitions = 1 ∧ drain_never_releases_lock = true := by decide
 
 /-- Clone/Drop/clone_* : 12 guarded updates, all `count > 0`; Drop terminates waiters exactly on
     the 1→0 transition with the other side alive; `close` is one guard: test, zero both, terminate, clear. -/
